@@ -71,9 +71,11 @@ def insertAsc (x : Nat) : List Nat → List Nat
   | y :: ys => if x ≤ y then x :: y :: ys else y :: insertAsc x ys
 def sortAsc (l : List Nat) : List Nat := l.foldr insertAsc []
 
+def nbStep (r : Nat) (acc : Option Nat) (l : Nat) : Option Nat :=
+  if l ≤ r then (match acc with | some a => if a ≤ l then some l else some a | none => some l) else acc
+
 /-- greatest element of `lhs` that is ≤ `r` -/
-def nearestBefore (lhs : List Nat) (r : Nat) : Option Nat :=
-  lhs.foldl (fun acc l => if l ≤ r then (match acc with | some a => if a ≤ l then some l else some a | none => some l) else acc) none
+def nearestBefore (lhs : List Nat) (r : Nat) : Option Nat := lhs.foldl (nbStep r) none
 
 /-- `connectDots`: walk the '+' dots in ascending patch order; stop at the first one that
 has no '-' dots at or before it, or that is already associated. -/
@@ -300,8 +302,8 @@ def addImport (c : Change) (d : Data) (imp : Option String × String)
           (match d.lookMv nameS with
            | some (.ptr t _ fs) =>
                if t == "ast.Ident" then pure (some (identName fs), identName fs)
-               else throw (.panic "import name is not an identifier")
-           | some _ => throw (.panic "import name is not an identifier")
+               else throw (.err "import name is not an identifier")
+           | some _ => throw (.err "import name is not an identifier")
            | none => throw (.err s!"could not find value for metavariable {nameS}"))
         else pure (some nameS, nameS))
   let name' : Option String := match name with | some "" => none | n => n
